@@ -105,6 +105,7 @@ def run_property(prop, tier, seed, replay=None):
     kf_hits = {}
     findings = core.load_known_findings(prop.id)
     open_findings = [f for f in findings if f.get("status") == "open"]
+    core.OPEN_IDS = {f["id"] for f in open_findings}
     model_runs = prop.models if harness_ok else []
     pending_oracle, pending_corr = [], []
     for mr in model_runs:
@@ -137,6 +138,10 @@ def run_property(prop, tier, seed, replay=None):
                     log(f"[{k}] {op[:200]}\n     impl : {r['impl'][k][:300] if k < len(r['impl']) else '<missing>'}\n"
                         f"     model: {r['model'][k][:300] if k < len(r['model']) else '<missing>'}\n"
                         f"     spec : {r['spec'][k][:300] if k < len(r['spec']) else '-'}")
+            for sl in r["spec"]:
+                if sl.startswith("spec KNOWN"):
+                    kid = sl.split()[2] if len(sl.split()) > 2 else "?"
+                    kf_hits[kid] = kf_hits.get(kid, 0) + 1
             if corr_ok and oracle_ok:
                 if len(samples) < 4 and c.kind != "corpus" and mr.nontrivial(c):
                     samples.append({"model": mr.model, "case": c.name, "ops": [o[:300] for o in c.ops[:12]],
@@ -193,7 +198,9 @@ def run_property(prop, tier, seed, replay=None):
                 continue
             w = Case("witness:" + f["id"], f["witness_ops"], True, "witness")
             rw, _ = core.run_cases(mr.model, [w], mr.impl_env, mr.spec_needs_impl)
+            saved_ids, core.OPEN_IDS = core.OPEN_IDS, set()     # the witness must still fail when nothing is attributed
             corr_ok, oracle_ok, bad = core.judge(rw[0])
+            core.OPEN_IDS = saved_ids
             total_eval += 1
             if not oracle_ok:
                 known_lines.append(f"KNOWN-FINDING: property={prop.id} {f['id']}: {f['what']}")
